@@ -32,6 +32,11 @@ class SetupPeer:
         self.failed_attempts = 0
 
     def handle(self, items):
+        reply = self._handle(items)
+        hook = getattr(self, "reply_hook", None)
+        return hook(items, reply) if hook is not None else reply
+
+    def _handle(self, items):
         d = dict((t, bytes(v)) for t, v in items)
         state = d.get(6)
         if state == b"\x01":
@@ -368,6 +373,109 @@ async def coap_case(ctx, idx: int, scenario: str) -> None:
             ctx.count("coap_setups_completed")
     finally:
         fac.remove()
+
+
+# ---------------------------------------------------------------------------------------------
+# C04 at transport level: a step answered with an error code, through the real drivers
+# ---------------------------------------------------------------------------------------------
+
+
+async def error_case(ctx, transport: str, step: int, err: bytes, with_fields: bool, mapped_class, idx: int) -> None:
+    """The accessory answers pair-setup step M<step> with Error=err (State present); the driver must fail with the documented
+    class and return nothing."""
+    rng = ctx.grng("C04.transport", transport, step, err, with_fields)
+    code = f"{rng.randrange(1000):03d}-{rng.randrange(100):02d}-{rng.randrange(1000):03d}"
+    replay = {"transport_cell": [transport, step, err, with_fields]}
+    ctx.case("transport-cell", transport, step, err, with_fields, sample={"transport": transport, "step": f"setup-M{step}", "error": err, "valid_fields_kept": with_fields}, kind="transport-" + transport)
+    desc = f"{transport} pair-setup M{step} answered with error {err.hex() or '<empty>'}{' next to the valid fields' if with_fields else ''}"
+
+    def hook(items, reply):
+        st = dict((t, bytes(v)) for t, v in items).get(6)
+        if st is not None and st[0] + 1 == step:
+            return (list(reply) if with_fields else [(6, bytes([step]))]) + [(7, err)]
+        return reply
+
+    result = exc = None
+    if transport == "ble":
+        _install_ble_setup_handler()
+        w = BleSetupWorld(rng, code)
+        w.peer.reply_hook = hook
+        try:
+            try:
+                finish = await asyncio.wait_for(w.discovery.async_start_pairing("alias"), 120)
+                result = await asyncio.wait_for(finish(code), 120)
+                w.pairings.append(result)
+            except Exception as ex:  # noqa: BLE001
+                exc = ex
+        finally:
+            await w.close()
+    elif transport == "ip":
+        from aiohomekit.controller.ip.discovery import IpDiscovery
+
+        from vf import simnet
+
+        w = simnet.World(rng)
+        peer = SetupPeer(rng, code, w.accessory.identity.pairing_id)
+        peer.reply_hook = hook
+
+        def responder(conn, req):
+            if req["target"] == "/pair-setup" and not conn.secure:
+                conn.send(conn.http(200, reftlv.encode(peer.handle(reftlv.decode(req["body"]))), "application/pairing+tlv8"))
+                return True
+            return False
+
+        w.accessory.script_for = lambda h, a: simnet.ConnScript(responder=responder)
+        disc = IpDiscovery(w.controller, w.description(w.hosts))
+        try:
+            try:
+                finish = await asyncio.wait_for(disc.async_start_pairing("alias"), 60)
+                result = await asyncio.wait_for(finish(code), 60)
+            except Exception as ex:  # noqa: BLE001
+                exc = ex
+        finally:
+            for obj in (result, disc):
+                try:
+                    if obj is not None:
+                        await obj.close()
+                except Exception:  # noqa: BLE001
+                    pass
+            await w.close()
+    else:
+        from aiohomekit.controller.coap.connection import CoAPHomeKitConnection
+
+        from vf import sim_coap
+
+        acc = sim_coap.CoapAccessory(rng)
+        peer = SetupPeer(rng, code, acc.identity.pairing_id)
+        peer.reply_hook = hook
+        orig_handle = acc.handle
+
+        async def handle(msg):
+            from aiocoap import Message
+            from aiocoap.numbers.codes import Code
+
+            if "/".join(msg.opt.uri_path) == "1":
+                return Message(code=Code.CHANGED, payload=reftlv.encode(peer.handle(reftlv.decode(bytes(msg.payload)))))
+            return await orig_handle(msg)
+
+        acc.handle = handle
+        fac = sim_coap.ContextFactory(acc).install()
+        try:
+            conn = CoAPHomeKitConnection(None, "fd00::1", 5683)
+            try:
+                salt, srp_b = await asyncio.wait_for(conn.do_pair_setup(False), 60)
+                result = await asyncio.wait_for(conn.do_pair_setup_finish(code, salt, srp_b), 60)
+            except Exception as ex:  # noqa: BLE001
+                exc = ex
+        finally:
+            fac.remove()
+    ctx.count("transport_cells_judged")
+    if exc is None:
+        ctx.violation(f"{transport}-transport-error-ignored", f"{desc}: the driver returned {type(result).__name__}", replay)
+    elif type(exc) is not mapped_class:
+        ctx.violation(f"{transport}-transport-wrong-exception-class", f"{desc}: raised {type(exc).__name__} ({exc}), documented class {mapped_class.__name__}", replay)
+    else:
+        ctx.count(f"{transport}_transport_cells")
 
 
 async def run_all(ctx) -> None:
